@@ -3,7 +3,9 @@
 //!   check 1  bytes through add_value / serialize+CellWriter == reference encoding of the carrier's logical value;
 //!   check 3  == the dynamic value's bytes for the same logical value;
 //!   check 2  type_check + deserialize of those bytes as the same carrier gives the value back (bitwise through
-//!            the reference form; hash-based collections compared as multisets).
+//!            the reference form; hash-based collections compared as multisets);
+//!   padding  a value the carrier cannot hold as given but can hold in canonical form (a short tuple vs a Rust tuple
+//!            with Option fields): the reference encoding of the short value must decode to the padded carrier value.
 use crate::c01dyn::Failure;
 use crate::carriers::{self, Entry, Rel, SStats};
 use crate::values;
@@ -23,6 +25,9 @@ pub fn all_entries() -> Vec<Entry> {
 }
 
 pub fn run(r: &Report) {
+    if r.tier().is_thorough() {
+        values::FULL_ALPHABET_LEVEL.store(2, Ordering::Relaxed);
+    }
     let n_ref = refv::self_test().unwrap_or_else(|e| vcore::machinery_error(&format!("crate::refvalue fails its pinned vectors: {e}")));
     r.note("reference_pinned_vectors_checked", json!(n_ref));
     let entries = all_entries();
@@ -62,12 +67,13 @@ pub fn run(r: &Report) {
         }
     });
     let idle: Vec<&str> = entries.iter().zip(&per_carrier).filter(|(_, n)| n.load(Ordering::Relaxed) == 0).map(|(e, _)| e.name.as_str()).collect();
-    if !idle.is_empty() {
+    if !idle.is_empty() && r.violation_count() == 0 {
         vcore::machinery_error(&format!("carriers that exercised no case (table or alphabet broken): {idle:?}"));
     }
     r.counters.add("cases_serialized_and_compared", st.cases.load(Ordering::Relaxed));
     r.counters.add("cases_value_not_representable_by_carrier", st.skipped_not_representable.load(Ordering::Relaxed));
     r.counters.add("cases_deserialized_back_to_same_carrier", st.deser_roundtrips.load(Ordering::Relaxed));
+    r.counters.add("short_tuple_encodings_decoded_into_padded_carrier", st.padded_decodes.load(Ordering::Relaxed));
     r.note("min_cases_per_carrier", json!(per_carrier.iter().map(|n| n.load(Ordering::Relaxed)).min().unwrap_or(0)));
     r.set_rule("E-ENUM, static carriers. Table: 31 owned base carriers (i8..i64, f32/f64, bool, String/Box<str>/Arc<str>, Vec<u8>/Bytes, IpAddr, Uuid, CqlTimeuuid, Counter, CqlDate/Time/Timestamp/Duration, CqlVarint, CqlDecimal, chrono NaiveDate/NaiveTime/DateTime<Utc>, time Date/Time/OffsetDateTime, num-bigint 0.3/0.4 BigInt, bigdecimal BigDecimal) each as T, Option<T>, Box<T>, Arc<T>, Vec<T>, Vec<Option<T>>, Option<Vec<T>>, BTreeMap<i32,T>, HashMap<String,T>, (T,), (T,i32), (String,T,Option<i64>), MaybeUnset<T>, &T, [T]; BTreeSet/BTreeMap-key for Ord carriers, HashSet/HashMap-key for Hash carriers, MaybeEmpty<T> for Emptiable carriers, two-level wrappers for five representatives, secrecy 0.8/0.10 wrappers, and the borrowed carriers &str, &[u8], Cow<str>, Cow<[u8]>, CqlVarintBorrowed, CqlDecimalBorrowed, [u8;N]. For each carrier: every column type it is documented to fit (list/set/vector dim 0..3 for sequences) x every alphabet value the carrier can represent. distinct_nontrivial = compared cases with a non-null value.");
     r.set_exhaustive(true);
